@@ -4,12 +4,14 @@
     constraints of a compiled pattern true drives the automaton, in its abstract
     semantics (constraint edges taken when true; the fallback edge taken from a
     non-deterministic state, or when no constraint edge is true), into a state
-    accepting that pattern.  The step from the abstract semantics to the
-    breadth-first traversal with scope-restricted bindings and visited-set
-    pruning is covered by the correspondence and oracle tests, not by a theorem
-    (c02_run_complete is the missing part; see DESIGN.md §6 C02). *)
+    accepting that pattern (the *_partial theorems).  For strings the step from
+    the abstract semantics to the breadth-first traversal with scope-restricted
+    bindings and visited-set pruning is proved as well (c02_string): every
+    occurrence of every compiled non-empty pattern is in the list returned by
+    the run, bound at the position of the occurrence.  For matrices that step
+    is covered by the correspondence and oracle tests, not by a theorem. *)
 From PM Require Import Model.Prelude Model.Domain Model.Automaton Model.DomString Model.DomMatrix
-  Cert.WinCheck Cert.CharCert Cert.ExampleAut Proofs.WinSound.
+  Model.Traversal Spec.Occ Cert.WfCheck Cert.WinCheck Cert.CharCert Cert.ExampleAut Proofs.WinSound Proofs.StringRun.
 
 Theorem c02_cert_complete_partial :
   forall (K P : Type) (entails refutes : list (constraint K P) -> constraint K P -> bool)
@@ -45,6 +47,28 @@ Proof.
   - apply m_refutes_sound.
 Qed.
 
+(** strings, the run itself: an automaton (as dumped from the implementation)
+    that passes the three certificate checks reports, for every host [h], every
+    occurrence [a] of every compiled non-empty pattern [p]. *)
+Theorem c02_string :
+  forall (A : automaton N cpredicate) (rk : list (N * nat)) (ids : list N) (pats : list spattern)
+         (present : list bool) (fuel : nat) (h : shost) (ms : list (N * spm)) (i : nat) (p : spattern) (a : N),
+    wf_check string_dom A rk ids = true ->
+    cert_complete (char_entails N.eqb) (char_refutes N.eqb) A (map s_cvec pats) present = true ->
+    s_keys_tight A (map s_cvec pats) = true ->
+    nth_error pats i = Some p -> nth_error present i = Some true -> p <> [] ->
+    occ_string p h a ->
+    run string_dom fuel A h = Ok ms ->
+    exists L, In (N.of_nat i, SBound a L) ms.
+Proof. exact s_complete. Qed.
+
+Example c02_string_example :
+  wf_check string_dom ex_aut (compute_rank ex_aut) [0; 1; 2]%N = true
+  /\ s_keys_tight ex_aut (map s_cvec ex_pats) = true
+  /\ occ_stringb [Lit 97; Lit 97]%N [98; 97; 97]%N 1 = true
+  /\ exists ms, run string_dom 100 ex_aut [98; 97; 97]%N = Ok ms.
+Proof. vm_compute. repeat split; eauto. Qed.
+
 Example c02_example :
   cert_complete (char_entails N.eqb) (char_refutes N.eqb) ex_aut (map s_cvec ex_pats) [true; true; true] = true
   /\ (forall d, In d (s_cvec [Lit 97; Lit 97]%N) -> sval [98; 97; 97]%N 1 d = true).
@@ -55,4 +79,5 @@ Qed.
 
 Print Assumptions c02_cert_complete_partial.
 Print Assumptions c02_string_partial.
+Print Assumptions c02_string.
 Print Assumptions c02_matrix_partial.
